@@ -63,7 +63,7 @@ def load_findings():
 def evaluate_case(case, prop):
     from dst import profiles
     prof = profiles.get(case['profile'])
-    return prof.evaluate(case, prop=prop)
+    return prof.evaluate(json.loads(json.dumps(case)), prop=prop)
 
 
 def first_violation(case, prop):
@@ -197,7 +197,7 @@ def cmd_check(args):
             from dst.rng import derive
             case = json.loads(json.dumps(prof.gen_case(derive(base_seed, pname, i))))
             try:
-                again = prof.evaluate(case, prop=prop).get('digest')
+                again = prof.evaluate(json.loads(json.dumps(case)), prop=prop).get('digest')
             except HarnessError:
                 continue
             digest_pairs += 1
